@@ -109,7 +109,8 @@ def job_build(job) -> report.JobResult:
 
     def build_both():
         p = "/" + render(path)
-        sc: Dict[str, Any] = {"type": "http", "scheme": scheme, "path": p, "root_path": root, "query_string": query.encode(), "headers": []}
+        sc: Dict[str, Any] = {"type": "http", "scheme": scheme, "path": p, "root_path": root, "query_string": query.encode(),
+                              "headers": [(b"user-agent", b"probe"), (b"accept", b"*/*")]}  # Host is rarely the first header a server hands over
         env: Dict[str, Any] = {"wsgi.url_scheme": scheme, "PATH_INFO": p, "SCRIPT_NAME": root, "QUERY_STRING": query,
                                "SERVER_NAME": render(host), "SERVER_PORT": SInt(port_v)}
         if has_server:
@@ -169,7 +170,8 @@ def job_build(job) -> report.JobResult:
                 "host": conc(host, m), "header_host": conc(hhost, m) + ".example", "port": m.eval(port_v, True).as_long(), "path": "/" + conc(path, m)}
 
     def concrete(w):
-        sc = {"type": "http", "scheme": w["scheme"], "path": w["path"], "root_path": w["root"], "query_string": w["query"].encode(), "headers": []}
+        sc = {"type": "http", "scheme": w["scheme"], "path": w["path"], "root_path": w["root"], "query_string": w["query"].encode(),
+              "headers": [(b"user-agent", b"probe"), (b"accept", b"*/*")]}
         env = {"wsgi.url_scheme": w["scheme"], "PATH_INFO": w["path"], "SCRIPT_NAME": w["root"], "QUERY_STRING": w["query"],
                "SERVER_NAME": w["host"], "SERVER_PORT": str(w["port"])}
         if w["server"]:
@@ -234,7 +236,8 @@ def _run(res, job, eng, fn, desc, concrete, twin):
 
 # ------------------------------------------------------------------ replace
 BASES = ["http://example.org/p?q=1#f", "https://u@h.example:8443/a/b", "https://bob:pw@10.0.0.1/x?y", "http://[::1]:8000/", "http://[2001:db8::1]/r#z",
-         "ws://al:s3@[fe80::1]:81/c", "https://example.org"]
+         "ws://al:s3@[fe80::1]:81/c", "https://example.org",
+         "http://example.org:/p", "https://u:pw@[::1]:/x"]  # an empty port after the colon is legal (RFC 3986: port = *DIGIT)
 FIELDS = ["scheme", "path", "query", "fragment", "username", "password", "hostname", "port"]
 
 
@@ -302,6 +305,8 @@ def job_replace(job) -> report.JobResult:
             t = e.term_of_text(ptxt) if ptxt else None
             if t is None or e.check(t != term_of(want_port)):
                 raise Fail("port-component-wrong", f"netloc {netloc!r}")
+            if tail.count(":") != 1:  # host ':' port and nothing else after the user info / the bracketed literal
+                raise Fail("port-component-wrong", f"netloc {netloc!r} has more than one colon before the port")
         if twin:
             raise Fail("twin-assert-false")
         return "ok"
